@@ -1523,3 +1523,283 @@ Proof.
     + intros c0. rewrite Gb3. unfold g2. cbn [gout g_bind]. destruct (N.eqb c0 c); [reflexivity|apply Gb1].
     + intros x. rewrite Gv3. unfold g2. cbn [gout g_view]. rewrite !Gv1. reflexivity.
 Qed.
+
+(* ------------------------------------------------------------------ a member is added to a room *)
+Lemma rs_set_proj h sid rs :
+  h_sessions (rs_set h sid rs) = h_sessions h /\ h_rooms (rs_set h sid rs) = h_rooms h /\ h_bus (rs_set h sid rs) = h_bus h /\
+  h_clock (rs_set h sid rs) = h_clock h /\ h_nextsid (rs_set h sid rs) = h_nextsid h /\ h_conns (rs_set h sid rs) = h_conns h.
+Proof.
+  unfold rs_set. destruct (N.eqb rs 0).
+  - destruct (aget (h_rs1 h) sid); repeat split; reflexivity.
+  - destruct (aget (h_rs1 h) sid) as [prev|]; [destruct (N.eqb prev rs)|]; repeat split; reflexivity.
+Qed.
+
+Lemma Jv_gview_exempt xr xs h g g' bus sid : Jv xr xs h g bus -> xs sid -> (forall x, x <> sid -> g_view g' x = g_view g x) ->
+  Jv xr xs h g' bus.
+Proof.
+  intros V Hx Hg y s Hs Hv Hy. assert (y <> sid) by (intros ->; contradiction).
+  eapply view_ok_ext; [reflexivity|now apply Hg|]. now apply V.
+Qed.
+
+Lemma pub_op_asj sid k tj M k0 x i t :
+  pub_op sid k tj M (mkpub (SubjBackendRoom (fst k0) (snd k0)) (ASessionJoined x i) t) =
+  if pair_eqb k0 k && N.eqb x sid then Some (VAdd (filter (fun m => negb (N.eqb m sid)) M)) else None.
+Proof. unfold pub_op. cbn [p_subj p_msg p_time]. now rewrite pair_eqb_eta. Qed.
+
+(* everybody else in the room: the new member is announced *)
+Lemma Jv_member_added xr xs h h9 g k sid u M1 t : Jh h g -> Jv xr xs h g (h_bus h) -> xs sid ->
+  (forall x, x <> sid -> get_sess h9 x = get_sess h x) ->
+  (forall M, mem_of h k = Some M -> M = M1) ->
+  (forall k', mem_of h9 k' = if pair_eqb k' k then Some (nadd sid M1) else mem_of h k') ->
+  h_bus h9 = h_bus h ++ [mkpub (SubjRoom (fst k) (snd k)) (ARoomEvent (SJoin [(sid, u)])) t] -> h_clock h <= t ->
+  Jv xr xs h9 g (h_bus h9).
+Proof.
+  intros H V Hx Hg HM Hm Hb Ht y s Hs Hv Hy. assert (Hne : y <> sid) by (intros ->; contradiction).
+  rewrite (Hg y Hne) in Hs. specialize (V y s Hs Hv Hy). rewrite Hb. unfold view_ok in *.
+  destruct (s_room s) as [k'|] eqn:Hk'; [|exact V]. destruct V as [V|(M & V0 & HMk & Hrep & Hseen & Haft)]; [now left|right].
+  rewrite Hm. destruct (pair_eqb_spec k' k) as [->|Hnk].
+  - assert (M = M1) by now apply HM. subst M. exists (nadd sid M1), V0. repeat split; auto.
+    intros z. rewrite bus_ops_app, bus_ops_single, pub_op_room_event, pair_eqb_refl.
+    assert (Htj : (t <? s_join s) = false) by (apply N.ltb_ge; pose proof (j_join _ _ H y s Hs); lia).
+    rewrite Htj. cbn [negb andb msg_op opt_list map fst]. rewrite after_snoc. cbn [vop_after nmem]. rewrite orb_false_r, nmem_nadd.
+    destruct (N.eqb_spec z sid) as [->|Hz]; [reflexivity|]. cbn [orb].
+    rewrite (after_bus_ops_members y k (s_join s) (nadd sid M1) M1 z); [apply Haft|].
+    rewrite nmem_nadd. destruct (N.eqb_spec z sid); [contradiction|reflexivity].
+  - exists M, V0. repeat split; auto. intros z. rewrite bus_ops_app, bus_ops_single, pub_op_room_event.
+    destruct (pair_eqb_spec k k'); [congruence|]. cbn [andb opt_list]. rewrite app_nil_r. apply Haft.
+Qed.
+
+Lemma bus_ops_filtered sid k tj M bus : (forall p, In p bus -> p_time p < tj /\ not_asj p) -> bus_ops sid k tj M bus = [].
+Proof.
+  induction bus as [|p r IH]; intros Hall; [reflexivity|]. rewrite bus_ops_cons, IH by (intros q Hq; apply Hall; now right).
+  destruct (Hall p (or_introl eq_refl)) as [Ht Hn]. apply N.ltb_lt in Ht. rewrite app_nil_r.
+  unfold pub_op. destruct (p_subj p); destruct (p_msg p) eqn:Hm; try reflexivity; rewrite ?Ht, ?andb_false_r; try reflexivity.
+  exfalso. eapply Hn; eauto.
+Qed.
+
+(* the new member itself: its own join notice, then the members of that moment *)
+Lemma view_ok_joiner xr mo v bus0 sid s k M' t1 t2 u i :
+  s_room s = Some k -> mo k = Some M' -> nmem sid M' = true -> replay (s_pending s) v = Some (snd k, []) -> s_seen s = [] ->
+  (forall p, In p bus0 -> p_time p < s_join s /\ not_asj p) -> s_join s <= t1 ->
+  view_ok xr mo v ((bus0 ++ [mkpub (SubjRoom (fst k) (snd k)) (ARoomEvent (SJoin [(sid, u)])) t1]) ++
+                   [mkpub (SubjBackendRoom (fst k) (snd k)) (ASessionJoined sid i) t2]) sid s.
+Proof.
+  intros Hk HM Hin Hrep Hseen Hold Ht1. unfold view_ok. rewrite Hk. right. exists M', []. split; [exact HM|]. split; [exact Hrep|].
+  split; [rewrite Hseen; intros z Hz; discriminate|]. intros z.
+  rewrite !bus_ops_app, (bus_ops_filtered sid k (s_join s) M' bus0 Hold), !bus_ops_single, pub_op_room_event, pub_op_asj.
+  rewrite pair_eqb_refl, N.eqb_refl. assert (Htj : (t1 <? s_join s) = false) by (apply N.ltb_ge; exact Ht1). rewrite Htj.
+  cbn [negb andb msg_op opt_list map fst app after fold_left vop_after nmem]. rewrite nmem_filter, !orb_false_r.
+  destruct (N.eqb_spec z sid) as [->|Hz]; cbn; [now rewrite Hin|]. now rewrite andb_true_r, orb_false_r.
+Qed.
+
+Lemma gout_geq g g' o : geq g g' -> geq (gout g o) (gout g' o).
+Proof.
+  intros [Gb Gv]. destruct o as [c m| | |]; try (split; assumption).
+  assert (D : geq (match g_bind g c with
+                   | Some sid => mkg (g_bind g) (fun x => if N.eqb x sid then apply_view (g_view g sid) m else g_view g x)
+                   | None => g end)
+                  (match g_bind g' c with
+                   | Some sid => mkg (g_bind g') (fun x => if N.eqb x sid then apply_view (g_view g' sid) m else g_view g' x)
+                   | None => g' end)).
+  { rewrite Gb. destruct (g_bind g c) as [sid|]; [|split; assumption]. split; cbn [g_bind g_view]; [exact Gb|].
+    intros x. rewrite !Gv. reflexivity. }
+  destruct m; try exact D. cbn [gout]. split; cbn [g_bind g_view]; [|exact Gv]. intros x. now rewrite Gb.
+Qed.
+Lemma gouts_geq outs : forall g g', geq g g' -> geq (gouts g outs) (gouts g' outs).
+Proof. induction outs as [|o r IH]; intros g g' G; [exact G|]. rewrite !gouts_cons. apply IH. now apply gout_geq. Qed.
+
+Lemma Jh_gview h g g' sid : Jh h g -> (forall c, g_bind g' c = g_bind g c) -> (forall x, x <> sid -> g_view g' x = g_view g x) ->
+  sid <= h_nextsid h -> Jh h g'.
+Proof.
+  intros H Gb Gv Hle. constructor; try apply H.
+  - intros x Hx. rewrite Gv; [now apply H|]. intros ->. lia.
+  - intros c x Hx. rewrite Gb in Hx. now apply (j_fresh_bind _ _ H c).
+  - intros x s c Hs Hc. rewrite Gb. now apply (j_bind _ _ H x s c).
+Qed.
+
+Lemma target_nonvirtual h x t : get_sess h x = Some t -> is_virtual (s_kind t) = false -> target h x = x.
+Proof. intros H Hv. unfold target. rewrite H. destruct (s_kind t); try reflexivity; discriminate. Qed.
+
+(* ------------------------------------------------------------------ joining a room *)
+
+Lemma apply_view_room_new v rn : rn <> 0 ->
+  (v = None \/ exists r0 V0, v = Some (r0, V0) /\ r0 <> rn) -> apply_view v (SRoom rn) = Some (rn, []).
+Proof.
+  intros Hrn Hv. destruct rn as [|p]; [contradiction|]. cbn [apply_view]. destruct Hv as [->|(r0 & V0 & -> & Hne)]; [reflexivity|].
+  destruct (N.eqb_spec (N.pos p) r0); [congruence|reflexivity].
+Qed.
+
+Lemma Jg_join_room xs h g c sid k rs perms su s0 :
+  WF h -> Jg none2 xs h g -> ~ xs sid -> get_sess h sid = Some s0 -> is_virtual (s_kind s0) = false ->
+  s_room s0 <> Some k -> fst k = s_backend s0 -> snd k <> 0 -> (forall p, In p (h_bus h) -> not_asj p) ->
+  Jg none2 xs (fst (join_room h c sid k rs perms su)) (gouts g (snd (join_room h c sid k rs perms su))).
+Proof.
+  intros W HJ Hxs Hs0 Hv0 Hnk Hbk Hk0 Hna. unfold join_room.
+  (* the view before *)
+  assert (Htag : replay (s_pending s0) (g_view g sid) = None \/
+                 exists r0 V0, replay (s_pending s0) (g_view g sid) = Some (r0, V0) /\ r0 <> snd k).
+  { pose proof (proj2 HJ sid s0 Hs0 Hv0 Hxs) as V. unfold view_ok in V. destruct (s_room s0) as [k0|] eqn:Hk0'; [|now left].
+    destruct V as [[]|(M & V0 & _ & Hrep & _)]. right. exists (snd k0), V0. split; [exact Hrep|].
+    intros E. apply Hnk. f_equal. pose proof (j_backend _ _ (proj1 HJ) sid s0 k0 Hs0 Hk0'). destruct k0, k; cbn in *; congruence. }
+  pose proof (Jg_leave_room none2 none1 xs h g sid true W HJ) as J1. pose proof (wf_leave_room none2 none1 h sid true W) as W1.
+  destruct (leave_room_sid h sid true s0 Hs0) as (s & Hs1 & Hr1 & K1 & K2 & K3 & K4).
+  pose proof (leave_room_irr h sid true) as I1. pose proof (grows_leave_room h sid true) as G1.
+  destruct (leave_room h sid true) as [h1 o1]. cbn [fst snd] in *.
+  apply (Jg_unirr _ _ _ _ _ I1) in J1. rewrite Hs1.
+  set (r := match room_of h1 k with Some x => x | None => empty_room end).
+  assert (Hal : nmem sid (r_members r) = false).
+  { destruct (nmem sid (r_members r)) eqn:E; [|reflexivity]. exfalso. apply nmem_In in E. unfold r in E.
+    destruct (room_of h1 k) as [x|] eqn:Hrk; [|destruct E].
+    destruct (wf_members _ _ h1 W1 k x sid Hrk E) as (s' & Hs' & Hk'). congruence. }
+  rewrite Hal. cbv iota.
+  set (r' := mkroom (nadd sid (r_members r)) _ _ _ _).
+  set (s1 := upd_sess s (Some k) rs _ _ _ _ _).
+  match goal with |- context [send_session ?hh sid (SRoom (snd k))] => set (h5 := hh) end.
+  set (h2 := set_clock (put_sess (set_rooms h1 (pset (h_rooms h1) k r')) sid s1) (h_clock h1 + 1)) in *.
+  assert (P5 : h_sessions h5 = aset (h_sessions h1) sid s1 /\ h_rooms h5 = pset (h_rooms h1) k r' /\ h_bus h5 = h_bus h1 /\
+               h_clock h5 = h_clock h1 + 1 /\ h_nextsid h5 = h_nextsid h1 /\ h_conns h5 = h_conns h1).
+  { destruct (rs_set_proj h2 sid rs) as (A1 & A2 & A3 & A4 & A5 & A6). unfold h5.
+    destruct (N.eqb rs 0); destruct (s_kind s) as [|f d|]; try destruct d;
+      cbn [h_sessions h_rooms h_bus h_clock h_nextsid h_conns set_anonymous set_dialout]; rewrite ?A1, ?A2, ?A3, ?A4, ?A5, ?A6;
+      repeat split; reflexivity. }
+  destruct P5 as (P5s & P5r & P5b & P5c & P5n & P5cn).
+  assert (Hs5 : get_sess h5 sid = Some s1) by (unfold get_sess; rewrite P5s; apply aget_aset_same).
+  assert (Hv1 : is_virtual (s_kind s1) = false) by (cbn; congruence).
+  rewrite send_session_eq, (target_nonvirtual h5 sid s1 Hs5 Hv1), (deliver_to_session_eq h5 sid _ s1 Hs5).
+  cbn [filtered seen_after].
+  (* the rest, for either way the room notice reaches the session *)
+  assert (T : forall s7 o2,
+    s_kind s7 = s_kind s -> s_backend s7 = s_backend s -> s_room s7 = Some k -> s_conn s7 = s_conn s -> s_seen s7 = [] ->
+    s_join s7 = h_clock h1 -> (s_conn s7 <> None -> s_pending s7 = []) -> (forall m, In m (s_pending s7) -> no_hello m = true) ->
+    (forall c0, g_bind (gouts g o2) c0 = g_bind g c0) -> (forall x, x <> sid -> g_view (gouts g o2) x = g_view g x) ->
+    replay (s_pending s7) (g_view (gouts g o2) sid) = Some (snd k, []) ->
+    Jg none2 xs
+      (fst (let '(h7, outs2) := (put_sess h5 sid s7, o2) in
+            match room_of h7 k with
+            | Some _ =>
+                let '(h10, outs3) :=
+                  match r_transient r with
+                  | [] => (publish h7 (SubjRoom (fst k) (snd k)) (ARoomEvent (SJoin [(sid, if s_user s =? 0 then su else s_user s)])), [])
+                  | _ :: _ => send_session (publish h7 (SubjRoom (fst k) (snd k)) (ARoomEvent (SJoin [(sid, if s_user s =? 0 then su else s_user s)]))) sid (STransient 0 0)
+                  end in
+                (publish h10 (SubjBackendRoom (fst k) (snd k)) (ASessionJoined sid (is_internal (s_kind s))), o1 ++ outs2 ++ outs3)
+            | None => (h7, o1 ++ outs2)
+            end))
+      (gouts g (snd (let '(h7, outs2) := (put_sess h5 sid s7, o2) in
+            match room_of h7 k with
+            | Some _ =>
+                let '(h10, outs3) :=
+                  match r_transient r with
+                  | [] => (publish h7 (SubjRoom (fst k) (snd k)) (ARoomEvent (SJoin [(sid, if s_user s =? 0 then su else s_user s)])), [])
+                  | _ :: _ => send_session (publish h7 (SubjRoom (fst k) (snd k)) (ARoomEvent (SJoin [(sid, if s_user s =? 0 then su else s_user s)]))) sid (STransient 0 0)
+                  end in
+                (publish h10 (SubjBackendRoom (fst k) (snd k)) (ASessionJoined sid (is_internal (s_kind s))), o1 ++ outs2 ++ outs3)
+            | None => (h7, o1 ++ outs2)
+            end)))).
+  { intros s7 o2 F1 F2 F3 F4 F5 F6 F7 F8 G7b G7v G7r.
+    set (h7 := put_sess h5 sid s7). set (g7 := gouts g o2) in *.
+    assert (Hr7 : room_of h7 k = Some r') by (unfold room_of, h7; cbn [h_rooms put_sess set_sessions]; rewrite P5r; apply pget_pset_same).
+    rewrite Hr7.
+    set (uid := if s_user s =? 0 then su else s_user s).
+    set (h9 := publish h7 (SubjRoom (fst k) (snd k)) (ARoomEvent (SJoin [(sid, uid)]))).
+    (* projections of h7 *)
+    assert (P7s : h_sessions h7 = aset (h_sessions h1) sid s7) by (unfold h7, put_sess; cbn [h_sessions set_sessions]; rewrite P5s; apply aset_aset).
+    assert (Hg7 : forall x, get_sess h7 x = if N.eqb x sid then Some s7 else get_sess h1 x) by (intros x; unfold get_sess; rewrite P7s; apply aget_aset).
+    assert (Hle : sid <= h_nextsid h1) by (eapply (j_live _ _ (proj1 J1)); eauto).
+    (* the hub-level part at h7 *)
+    assert (H7 : Jh h7 g7).
+    { apply (Jh_gview h7 g g7 sid); auto; [|unfold h7; cbn [h_nextsid put_sess set_sessions]; now rewrite P5n].
+      set (hA := set_rooms h1 (pset (h_rooms h1) k r')).
+      assert (HA : Jh hA g).
+      { apply (Jh_fields h1 hA g (proj1 J1)); try reflexivity; try apply N.le_refl.
+        intros k' rr. unfold hA. rewrite room_of_set_rooms, pget_pset. destruct (pair_eqb_spec k' k) as [->|]; [auto|].
+        intros Hrr. eapply (j_room0 _ _ (proj1 J1)); eauto. }
+      assert (HB : Jh (put_sess hA sid s7) g).
+      { apply (Jh_put hA g sid s s7 HA); auto.
+        - intros p b rr i Hp Hsu Hm. exfalso. destruct G1 as (l & Hl & Hnl). change (h_bus hA) with (h_bus h1) in Hp. rewrite Hl in Hp.
+          apply in_app_iff in Hp as [Hp|Hp]; [eapply (Hna p Hp)|eapply (Hnl p Hp)]; eauto.
+        - rewrite F6. apply N.le_refl.
+        - intros k' Hk'. rewrite F3 in Hk'. injection Hk' as <-. rewrite F2. congruence.
+        - intros Hvv. rewrite F4. apply (j_vconn _ _ (proj1 J1) sid s Hs1). congruence.
+        - intros c0. congruence. }
+      apply (Jh_fields _ h7 g HB).
+      - rewrite P7s. reflexivity.
+      - unfold h7. cbn [h_bus put_sess set_sessions]. now rewrite P5b.
+      - unfold h7. cbn [h_clock put_sess set_sessions]. rewrite P5c. cbn. lia.
+      - unfold h7. cbn [h_nextsid put_sess set_sessions]. rewrite P5n. apply N.le_refl.
+      - unfold h7. cbn [h_conns put_sess set_sessions]. now rewrite P5cn.
+      - intros k' rr. unfold room_of, h7. cbn [h_rooms put_sess set_sessions]. rewrite P5r, pget_pset.
+        destruct (pair_eqb_spec k' k) as [->|]; [auto|]. intros Hrr. eapply (j_room0 _ _ (proj1 J1)); eauto. }
+    assert (Hb7 : h_bus h7 = h_bus h1) by (unfold h7; cbn [h_bus put_sess set_sessions]; exact P5b).
+    assert (Hc7 : h_clock h7 = h_clock h1 + 1) by (unfold h7; cbn [h_clock put_sess set_sessions]; exact P5c).
+    assert (Hm7 : forall k', mem_of h7 k' = if pair_eqb k' k then Some (nadd sid (r_members r)) else mem_of h1 k').
+    { intros k'. unfold mem_of at 1, room_of, h7. cbn [h_rooms put_sess set_sessions]. rewrite P5r, pget_pset.
+      destruct (pair_eqb k' k); reflexivity. }
+    assert (J9 : Jg none2 (or_sid xs sid) h9 g7).
+    { split.
+      - apply Jh_publish; [exact H7|exact I|]. intros b rr x i t _ Hm. discriminate.
+      - apply (Jv_member_added none2 (or_sid xs sid) h1 h9 g7 k sid uid (r_members r) (h_clock h7)).
+        + apply (Jh_gview h1 g g7 sid (proj1 J1)); auto.
+        + apply (Jv_gview_exempt none2 (or_sid xs sid) h1 g g7 (h_bus h1) sid (proj2 J1)); [now right|exact G7v].
+        + now right.
+        + intros x Hx. change (get_sess h9 x) with (get_sess h7 x). rewrite Hg7. destruct (N.eqb_spec x sid); [contradiction|reflexivity].
+        + intros M HM. unfold r. unfold mem_of in HM. destruct (room_of h1 k); cbn in HM; [congruence|discriminate].
+        + exact Hm7.
+        + unfold h9. rewrite bus_publish, Hb7. reflexivity.
+        + rewrite Hc7. lia. }
+    assert (Q : quiet h9 (match r_transient r with [] => (h9, []) | _ :: _ => send_session h9 sid (STransient 0 0) end)).
+    { destruct (r_transient r); [apply quiet_ret|now apply quiet_send_irr]. }
+    destruct (match r_transient r with [] => (h9, []) | _ :: _ => send_session h9 sid (STransient 0 0) end) as [h10 o3].
+    destruct Q as [E10 I10]. cbn [fst snd] in *.
+    (* the ghost state: the leave outputs and the transient notice change nothing *)
+    apply (Jg_geq _ _ _ (gouts g7 o3)).
+    { rewrite gouts_app, gouts_app. fold g7. apply gouts_geq. unfold g7. apply gouts_geq. now apply gouts_irr. }
+    pose proof (Jg_quiet _ _ _ _ (h10, o3) (conj E10 I10) J9) as J10. cbn [fst snd] in J10.
+    destruct (gouts_irr o3 g7 I10) as [Gb10 Gv10]. set (g10 := gouts g7 o3) in *.
+    assert (Hs9 : get_sess h9 sid = Some s7) by (change (get_sess h9 sid) with (get_sess h7 sid); now rewrite Hg7, N.eqb_refl).
+    destruct (same_get' _ _ _ _ E10 Hs9) as (s10 & Hs10 & Hc10 & (_ & Hp10 & _)).
+    apply vcore_eq in Hc10 as (C1 & C2 & C3 & C4 & C5 & C6).
+    split.
+    - apply Jh_publish; [exact (proj1 J10)|exact I|].
+      intros b rr x i t Hsu Hm Ht. injection Hsu as <- <-. injection Hm as <- _. right.
+      assert (t = s10) by congruence. subst t. rewrite C3, F3. destruct k; reflexivity.
+    - rewrite bus_publish. intros x t Ht Hvt Hx. change (get_sess h10 x = Some t) in Ht.
+      destruct (N.eqb_spec x sid) as [->|Hne].
+      + assert (t = s10) by congruence. subst t.
+        rewrite (sm_bus _ _ E10). unfold h9 at 1. rewrite bus_publish, Hb7.
+        apply (view_ok_joiner none2 _ _ (h_bus h1) sid s10 k (nadd sid (r_members r))).
+        * congruence.
+        * change (mem_of (publish h10 (SubjBackendRoom (fst k) (snd k)) (ASessionJoined sid (is_internal (s_kind s)))) k) with (mem_of h10 k).
+          rewrite (sm_rooms _ _ E10). change (mem_of h9 k) with (mem_of h7 k). now rewrite Hm7, pair_eqb_refl.
+        * rewrite nmem_nadd, N.eqb_refl. reflexivity.
+        * rewrite Hp10, Gv10. exact G7r.
+        * congruence.
+        * intros p Hp. split.
+          -- rewrite C6, F6. apply (j_times _ _ (proj1 J1) p Hp).
+          -- destruct G1 as (l & Hl & Hnl). rewrite Hl in Hp. apply in_app_iff in Hp as [Hp|Hp]; auto.
+        * rewrite C6, F6, Hc7. lia.
+      + apply view_ok_app_none.
+        * intros k' M _. rewrite pub_op_asj. destruct (N.eqb_spec sid x); [congruence|]. now rewrite andb_false_r.
+        * apply (proj2 J10 x t Ht Hvt). intros [A|B]; contradiction. }
+  destruct K4 as (K4a & K4b & K4c).
+  assert (Hs1c : s_conn s1 = s_conn s) by reflexivity.
+  destruct (s_conn s1) as [c0|] eqn:Hc1.
+  - cbn [is_closing].
+    assert (Hp0 : s_pending s = []) by (apply (j_pc _ _ (proj1 J1) sid s Hs1); congruence).
+    assert (Hb0 : g_bind g c0 = Some sid) by (apply (j_bind _ _ (proj1 J1) sid s c0 Hs1); congruence).
+    apply (T s1 [ToConn c0 (SRoom (snd k))]); try reflexivity.
+    + intros _. exact Hp0.
+    + cbn [s_pending s1 upd_sess]. rewrite Hp0. intros m [].
+    + intros c1. rewrite gouts_cons, gouts_nil, (gout_msg g c0 (SRoom (snd k)) sid eq_refl Hb0). reflexivity.
+    + intros x Hx. rewrite gouts_cons, gouts_nil, (gout_msg g c0 (SRoom (snd k)) sid eq_refl Hb0). cbn [g_view].
+      destruct (N.eqb_spec x sid); [contradiction|reflexivity].
+    + rewrite gouts_cons, gouts_nil, (gout_msg g c0 (SRoom (snd k)) sid eq_refl Hb0). cbn [g_view s_pending s1 upd_sess]. rewrite N.eqb_refl, Hp0. cbn [replay fold_left].
+      apply apply_view_room_new; [exact Hk0|]. rewrite <- K4b, Hp0 in Htag. exact Htag.
+  - apply (T (sess_pending s1 (enqueue (s_pending s1) (SRoom (snd k)))) []); try reflexivity.
+    + change (s_conn (sess_pending s1 (enqueue (s_pending s1) (SRoom (snd k))))) with (s_conn s1). rewrite Hc1. intros Hn. contradiction.
+    + intros m Hm. change (In m (enqueue (s_pending s) (SRoom (snd k)))) in Hm. rewrite enqueue_plain in Hm by reflexivity. apply in_app_iff in Hm as [Hm|[<-|[]]]; [|reflexivity].
+      eapply (j_nohello _ _ (proj1 J1) sid s); eauto.
+    + change (replay (enqueue (s_pending s) (SRoom (snd k))) (g_view g sid) = Some (snd k, [])).
+      rewrite enqueue_plain by reflexivity. rewrite replay_app. cbn [replay fold_left].
+      apply apply_view_room_new; [exact Hk0|]. rewrite <- K4b in Htag. exact Htag.
+Qed.
